@@ -547,11 +547,245 @@ pub fn overlap_held_scenario(r: &mut Report, seed: u64) {
     }
 }
 
+/// Replies to an EARLIER put that arrive while a LATER put for the same target is in flight: the first put's
+/// store requests are answered 0.7..2.5 s late (after they expired, so that put ends with a query error), the
+/// second put - started as soon as the first returned - gets no reply at all to its own requests. The late
+/// acknowledgements / 301 / 302 belong to requests of the first put; the second put's result must be backed
+/// by replies to ITS requests only: no Ok, no CasFailed, no NotMostRecent.
+pub fn late_reply_scenario(r: &mut Report, seed: u64) {
+    r.eval();
+    let mut rng = Rng::new(seed);
+    let w = World::with_cfg(seed, NetCfg { lat_min: MS, lat_max: 30 * MS, random_ties: true }, TraceLevel::Off);
+    let n = 1 + rng.usize(5);
+    let kind = rng.usize(4);
+    let late_kind = if kind == 1 { rng.usize(3) } else { 0 }; // 0 ack, 1 error 301, 2 error 302
+    let late_name = ["ack", "301", "302"][late_kind];
+    let case = json!({"class":"late-replies-of-an-earlier-put","seed":seed.to_string(),"endpoints":n,"kind":kind,"late_reply":late_name});
+    let ends: Vec<([u8; 20], SocketAddrV4)> = (0..n).map(|i| (rng.array(), SocketAddrV4::new(Ipv4Addr::new(10, 3, 0, 1 + i as u8), 6881))).collect();
+    let socks: Vec<SockId> = ends.iter().map(|e| w.raw(e.1)).collect();
+    let index: HashMap<SockId, usize> = socks.iter().enumerate().map(|(i, s)| (*s, i)).collect();
+    // store requests seen per endpoint, with their transaction ids; replies sent (tid, kind)
+    let stores: Rc<RefCell<Vec<(usize, Vec<u8>, u64)>>> = Rc::new(RefCell::new(vec![]));
+    {
+        let (ends2, stores2) = (ends.clone(), stores.clone());
+        let delays: Vec<u64> = (0..n).map(|_| (700 + rng.below(1800)) * MS).collect();
+        w.set_responder(Some(Box::new(move |w, sock, d| {
+            let Some(q) = Krpc::parse(&d.bytes) else { return true };
+            if q.y != b'q' {
+                return true;
+            }
+            let i = index[&sock];
+            let me = ends2[i].0;
+            let name = q.q.clone().unwrap_or_default();
+            if matches!(name.as_str(), "put" | "announce_peer" | "announce_signed_peer") {
+                let seen_before = stores2.borrow().iter().filter(|s| s.0 == i).count();
+                stores2.borrow_mut().push((i, q.t.clone(), w.now()));
+                if seen_before == 0 {
+                    let bytes = match late_kind {
+                        0 => response(&q.t, B::dict(vec![("id", B::bytes(&me))]), Some(&d.from), Some(&VERSION_RS6)).encode(),
+                        1 => error(&q.t, 301, "cas mismatch").encode(),
+                        _ => error(&q.t, 302, "seq less than current").encode(),
+                    };
+                    w.raw_send_delayed(sock, &bytes, d.from, delays[i]);
+                }
+                // every later store request of this endpoint: no reply at all
+                return true;
+            }
+            let mut rd = vec![("id", B::bytes(&me)), ("nodes", B::Bytes(nodes_bytes(&ends2)))];
+            if name != "find_node" && name != "ping" {
+                rd.push(("token", B::bytes(b"tokn")));
+            }
+            w.raw_send(sock, &response(&q.t, B::dict(rd), Some(&d.from), Some(&VERSION_RS6)).encode(), d.from);
+            true
+        })));
+    }
+    let boots: Vec<SocketAddrV4> = ends.iter().map(|e| e.1).collect();
+    let x = w.spawn(NodeSpec::client(Ipv4Addr::new(10, 200, 0, 1), &boots)).expect("x");
+    w.block_on(x.adht.bootstrapped(), 120 * SEC);
+    let signer = SigningKey::from_bytes(&rng.array::<32>());
+    let value = rng.blob(3, 40);
+    let ih = Id::from(rng.array::<20>());
+    let ts = w.unix_micros();
+    let sg = super::srv::sign_announce(&signer, ih.as_bytes(), ts);
+    let make = |second: bool| match kind {
+        0 => PutRequestSpecific::PutImmutable(PutImmutableRequestArguments { target: Id::from(immutable_target(&value)), v: value.clone().into_boxed_slice() }),
+        1 => PutRequestSpecific::PutMutable(PutMutableRequestArguments::from(MutableItem::new(&signer, &value, if second { 8 } else { 7 }, None), if second { Some(7) } else { None })),
+        2 => PutRequestSpecific::AnnouncePeer(AnnouncePeerRequestArguments { info_hash: ih, port: 4000, implied_port: None }),
+        _ => PutRequestSpecific::AnnounceSignedPeer(AnnounceSignedPeerRequestArguments { info_hash: ih, t: ts, k: sg.k, sig: sg.sig }),
+    };
+    let rx = put_raw(&x.dht, make(false), None);
+    let first = w.block_on(async move { rx.recv_async().await }, 300 * SEC);
+    let t_first_end = w.now();
+    let rx = put_raw(&x.dht, make(true), None);
+    let second = w.block_on(async move { rx.recv_async().await }, 300 * SEC);
+    let t_second_end = w.now();
+    w.run_for(6 * SEC);
+    let st = stores.borrow();
+    let first_requests = st.iter().filter(|s| s.2 <= t_first_end).count();
+    let second_requests = st.iter().filter(|s| s.2 > t_first_end).count();
+    r.count("late_reply_scenarios");
+    let detail = json!({"first": format!("{first:?}"), "second": format!("{second:?}"), "store_requests_of_the_first_put": first_requests, "store_requests_of_the_second_put": second_requests, "second_put_lasted_ms": (t_second_end - t_first_end) / MS});
+    if second_requests > 0 && first_requests > 0 {
+        r.count("late_reply/second_put_sent_requests_while_replies_to_the_first_were_still_on_their_way");
+        r.nontrivial(mix(seed, kind as u64));
+        match &second {
+            None => r.violation("put/did-not-complete", "put did not complete within 300 virtual seconds", case.clone(), detail.clone()),
+            Some(Ok(Ok(_))) => r.violation("result/ok-without-ack/late-replies-of-an-earlier-put", "the put returned Ok although no reply to any of ITS requests was ever sent; acknowledgements of an earlier put for the same target arrived meanwhile", case.clone(), detail.clone()),
+            Some(Ok(Err(PutError::Concurrency(ConcurrencyError::CasFailed)))) => r.violation("result/cas-failed-without-301/late-replies-of-an-earlier-put", "CasFailed although no storing node answered 301 to this put (301s of an earlier put arrived meanwhile)", case.clone(), detail.clone()),
+            Some(Ok(Err(PutError::Concurrency(ConcurrencyError::NotMostRecent)))) => r.violation("result/not-most-recent-without-302/late-replies-of-an-earlier-put", "NotMostRecent although no storing node answered 302 to this put (302s of an earlier put arrived meanwhile)", case.clone(), detail.clone()),
+            _ => {}
+        }
+    }
+    drop(st);
+    drop(x);
+    for (thread, loc, msg) in crate::take_panics() {
+        r.violation(&format!("panic/{}", loc.replace("/repo/", "")), &format!("thread {thread} panicked: {msg}"), case.clone(), json!({}));
+    }
+}
+
+/// A slow network: every datagram takes 250..400 ms, so round trips (500..800 ms) exceed the initial 500 ms
+/// request timeout until the node's estimate has adapted. After warm-up lookups the adaptive timeout (read
+/// through the snapshot hook) is above every round trip; then a series of puts follows, all acknowledged.
+/// Each acknowledgement reaches the caller before its request expired, so each put must return Ok.
+pub fn slow_network_scenario(r: &mut Report, seed: u64) {
+    r.eval();
+    let mut rng = Rng::new(seed);
+    let (lat_min, lat_max) = (250 * MS, (300 + rng.below(100)) * MS);
+    let w = World::with_cfg(seed, NetCfg { lat_min, lat_max, random_ties: true }, TraceLevel::Off);
+    let mut n = *rng.pick(&[2usize, 3, 4, 6, 7, 8, 12, 15, 16]);
+    if let Ok(v) = std::env::var("MLV_N") {
+        n = v.parse().unwrap_or(n);
+    }
+    let case = json!({"class":"slow-network","seed":seed.to_string(),"endpoints":n,"one_way_latency_ms":[lat_min / MS, lat_max / MS]});
+    let ends: Vec<([u8; 20], SocketAddrV4)> = (0..n).map(|i| (rng.array(), SocketAddrV4::new(Ipv4Addr::new(10, 4, 0, 1 + i as u8), 6881))).collect();
+    let socks: Vec<SockId> = ends.iter().map(|e| w.raw(e.1)).collect();
+    let index: HashMap<SockId, usize> = socks.iter().enumerate().map(|(i, s)| (*s, i)).collect();
+    let acks_sent = Rc::new(RefCell::new(0u64));
+    let dead_referrals = rng.chance(1, 2) && std::env::var("MLV_NODEAD").is_err();
+    {
+        let (ends2, acks2) = (ends.clone(), acks_sent.clone());
+        w.set_responder(Some(Box::new(move |w, sock, d| {
+            let Some(q) = Krpc::parse(&d.bytes) else { return true };
+            if q.y != b'q' {
+                return true;
+            }
+            let me = ends2[index[&sock]].0;
+            let name = q.q.clone().unwrap_or_default();
+            let mut rd = vec![("id", B::bytes(&me))];
+            if matches!(name.as_str(), "put" | "announce_peer" | "announce_signed_peer") {
+                *acks2.borrow_mut() += 1;
+            } else {
+                // every lookup is also referred to one contact nobody sits at (a fresh address per target): its
+                // request is never answered and stays in the node's in-flight vector after it expired, so the
+                // number of entries in that vector keeps changing from put to put
+                let mut list = ends2.clone();
+                if let Some(t) = q.target() {
+                    if dead_referrals {
+                        // (one such contact per answering endpoint: they are asked one by one as the answers come
+                        // in, so the store phase - all storing nodes at once, next to them - is the moment at
+                        // which the vector is fullest)
+                        let mut id = t;
+                        id[19] ^= 1 + index[&sock] as u8;
+                        list.push((id, SocketAddrV4::new(Ipv4Addr::new(10, 5 + index[&sock] as u8, t[0], t[1].max(1)), 6881)));
+                    }
+                }
+                rd.push(("nodes", B::Bytes(nodes_bytes(&list))));
+                if name != "find_node" && name != "ping" {
+                    rd.push(("token", B::bytes(b"tokn")));
+                }
+            }
+            w.raw_send(sock, &response(&q.t, B::dict(rd), Some(&d.from), Some(&VERSION_RS6)).encode(), d.from);
+            true
+        })));
+    }
+    let boots: Vec<SocketAddrV4> = ends.iter().map(|e| e.1).collect();
+    // (a client-mode node never answers the ping it sends to itself to confirm its address: that request stays
+    // in its in-flight vector for good; a server-mode node answers it)
+    let x_server = rng.bool() || std::env::var("MLV_XSERVER").is_ok();
+    let x = w.spawn(if x_server { NodeSpec::server(Ipv4Addr::new(10, 200, 0, 1), &boots) } else { NodeSpec::client(Ipv4Addr::new(10, 200, 0, 1), &boots) }).expect("x");
+    w.block_on(x.adht.bootstrapped(), 120 * SEC);
+    // warm-up: the late answers of these lookups raise the round-trip estimate
+    for _ in 0..6 {
+        let a = x.adht.clone();
+        let t = Id::from(rng.array::<20>());
+        w.block_on(async move { drop(a.get_closest_nodes(t).await) }, 120 * SEC);
+        w.run_for(SEC);
+    }
+    let timeout = super::net::snapshot(&w, &x).map(|s| s.request_timeout.as_nanos() as u64).unwrap_or(0);
+    r.count("slow_network_scenarios");
+    if timeout <= 2 * lat_max + 20 * MS {
+        // the estimate has not adapted far enough: acknowledgements would not be "in time" by the node's own clock
+        r.count("slow_network/premise-unmet-timeout-below-round-trip");
+        drop(x);
+        return;
+    }
+    // token-bearing nodes of a warm-up lookup, handed to the puts below as extra storing nodes (with
+    // repetition): the number of store requests that leave at once grows from put to put, through every size
+    let a = x.adht.clone();
+    let t = Id::from(rng.array::<20>());
+    let pool: Vec<Node> = w.block_on(async move { a.get_closest_nodes(t).await }, 120 * SEC).map(|b| b.to_vec()).unwrap_or_default();
+    let signer = SigningKey::from_bytes(&rng.array::<32>());
+    let mut failed: Vec<Value> = vec![];
+    let puts = 40;
+    for k in 0..puts {
+        let value = rng.blob(3, 40);
+        let ih = Id::from(rng.array::<20>());
+        let request = match (k + n) % 4 {
+            0 => PutRequestSpecific::PutImmutable(PutImmutableRequestArguments { target: Id::from(immutable_target(&value)), v: value.clone().into_boxed_slice() }),
+            1 => PutRequestSpecific::PutMutable(PutMutableRequestArguments::from(MutableItem::new(&signer, &value, k as i64, Some(&[k as u8])), None)),
+            2 => PutRequestSpecific::AnnouncePeer(AnnouncePeerRequestArguments { info_hash: ih, port: 4000, implied_port: None }),
+            _ => {
+                let ts = w.unix_micros();
+                let sg = super::srv::sign_announce(&signer, ih.as_bytes(), ts);
+                PutRequestSpecific::AnnounceSignedPeer(AnnounceSignedPeerRequestArguments { info_hash: ih, t: ts, k: sg.k, sig: sg.sig })
+            }
+        };
+        let before = *acks_sent.borrow();
+        let t_now = super::net::snapshot(&w, &x).map(|s| s.request_timeout.as_nanos() as u64).unwrap_or(0);
+        let extras: Vec<Node> = if pool.is_empty() { vec![] } else { (0..k).map(|j| pool[j % pool.len()].clone()).collect() };
+        let rx = put_raw(&x.dht, request, if extras.is_empty() { None } else { Some(extras.into_boxed_slice()) });
+        let res = w.block_on(async move { rx.recv_async().await }, 300 * SEC);
+        let t_after = super::net::snapshot(&w, &x).map(|s| s.request_timeout.as_nanos() as u64).unwrap_or(0);
+        let acked = *acks_sent.borrow() - before;
+        if std::env::var("MLV_DEBUG").is_ok() {
+            let sn = super::net::snapshot(&w, &x);
+            eprintln!("put {k}: acked={acked} result_ok={} timeout {}..{} ms inflight after={:?}", matches!(res, Some(Ok(Ok(_)))), t_now / MS, t_after / MS, sn.map(|s| s.inflight));
+        }
+        r.count("slow_network/puts");
+        // judged only when the node's own timeout stayed above the slowest possible round trip throughout
+        if acked >= 1 && t_now.min(t_after) > 2 * lat_max + 20 * MS {
+            r.count("slow_network/puts_acknowledged_within_the_adapted_timeout");
+            if !matches!(res, Some(Ok(Ok(_)))) {
+                failed.push(json!({"put": k, "result": format!("{res:?}"), "acknowledgements_sent": acked, "request_timeout_ms": [t_now / MS, t_after / MS]}));
+            }
+        }
+        w.run_for(rng.below(800) * MS);
+    }
+    r.nontrivial(mix(seed, n as u64));
+    if !failed.is_empty() {
+        r.violation("result/error-despite-ack/slow-network", "every store request of the put was acknowledged, and every acknowledgement arrived within the node's own (adapted) request timeout, yet the put did not return Ok", case.clone(), json!({"failed": failed, "request_timeout_after_warm_up_ms": timeout / MS}));
+    }
+    drop(x);
+    for (thread, loc, msg) in crate::take_panics() {
+        r.violation(&format!("panic/{}", loc.replace("/repo/", "")), &format!("thread {thread} panicked: {msg}"), case.clone(), json!({}));
+    }
+}
+
 pub fn run(a: &Args) -> Report {
     let mut r = Report::new("C08");
     if let Some(path) = &a.replay {
         let v: Value = serde_json::from_str(&std::fs::read_to_string(path).unwrap_or_default()).unwrap_or_default();
         let c = &v["case"];
+        if c["class"].as_str() == Some("slow-network") {
+            let seed = c["seed"].as_str().and_then(|s| s.parse().ok()).unwrap_or(1);
+            super::guarded(&mut r, c.clone(), |r| slow_network_scenario(r, seed));
+            return r;
+        }
+        if c["class"].as_str() == Some("late-replies-of-an-earlier-put") {
+            let seed = c["seed"].as_str().and_then(|s| s.parse().ok()).unwrap_or(1);
+            super::guarded(&mut r, c.clone(), |r| late_reply_scenario(r, seed));
+            return r;
+        }
         if c["class"].as_str() == Some("overlapping-puts-held") {
             let seed = c["seed"].as_str().and_then(|s| s.parse().ok()).unwrap_or(1);
             super::guarded(&mut r, c.clone(), |r| overlap_held_scenario(r, seed));
@@ -587,6 +821,12 @@ pub fn run(a: &Args) -> Report {
         r.count("held_scenarios");
         let seed = rng.u64();
         super::guarded(&mut r, json!({"class":"overlapping-puts-held","seed":seed.to_string()}), |r| overlap_held_scenario(r, seed));
+        for _ in 0..2 {
+            let seed = rng.u64();
+            super::guarded(&mut r, json!({"class":"late-replies-of-an-earlier-put","seed":seed.to_string()}), |r| late_reply_scenario(r, seed));
+        }
+        let seed = rng.u64();
+        super::guarded(&mut r, json!({"class":"slow-network","seed":seed.to_string()}), |r| slow_network_scenario(r, seed));
     }
     // exhaustive assignments for small replica sets
     let max_n = if a.quick() { 4 } else { 5 };
